@@ -260,6 +260,31 @@ def run_history(sb, i, rnd, v, xattrs):
     return case, outcome, msgs
 
 
+def finding_history(sb):
+    """known finding keepdir-file-before-dir: a file named on the command line before its own directory, --keep-dir,
+    extraction without --overwrite (never the order of the -r walker); fixed case, replayed in every run"""
+    root = sb.path("kf")
+    os.makedirs(os.path.join(root, "tmp"))
+    os.makedirs(os.path.join(root, "t", "d"))
+    with open(os.path.join(root, "t", "d", "f"), "wb") as f:
+        f.write(b"hi")
+    os.chmod(os.path.join(root, "t", "d", "f"), 0o644)
+    os.utime(os.path.join(root, "t", "d", "f"), (1, 1))
+    os.chmod(os.path.join(root, "t", "d"), 0o755)
+    r1 = cli.run_pna(["--quiet", "create", "a.pna", "t/d/f", "t/d", "--keep-dir"], cwd=root, timeout=60)
+    r2 = cli.run_pna(["--quiet", "extract", "a.pna", "--out-dir", "out"], cwd=root, timeout=60)
+    case = "roundtrip\t1\t0\t%s:f:%s:420:1:,%s:d::493:0:" % (b"t/d/f".hex(), sha(b"hi").hex(), b"t/d".hex())
+    got = snap(os.path.join(root, "out", "t"), "t")
+    got.pop("t", None)           # `t` itself is not an item of this invocation
+    def show(p):
+        k, data, mode, mtime, xs = got[p]
+        return "%s:%s:%s:-:-:" % (p.encode().hex(), k, data.hex())
+    outcome = "OK %d %s" % (0 if (r1["rc"] == 0 and r2["rc"] == 0) else 1, ",".join(show(p) for p in sorted(got)) or "-")
+    msgs = [] if r2["rc"] == 0 else ["extract fails (rc %s): %s [create a.pna t/d/f t/d --keep-dir | extract]" % (r2["rc"], r2["err"][-120:].decode("utf-8", "replace"))]
+    shutil.rmtree(root, ignore_errors=True)
+    return case, outcome, msgs
+
+
 def histories(c, tier, seed):
     os.umask(0o022)
     rnd = random.Random(seed * 104729 + 2)
@@ -280,6 +305,10 @@ def histories(c, tier, seed):
             for k in ("transport", "comp", "solid"):
                 c.hist["%s=%s" % (k, v[k])] = c.hist.get("%s=%s" % (k, v[k]), 0) + 1
             shutil.rmtree(sb.path("h%d" % i), ignore_errors=True)
+        case, out, msgs = finding_history(sb)
+        cases.append(case); outs.append(out)
+        if msgs:
+            orc[len(cases) - 1] = msgs
     c.correspondence_py("extract", cases, outs, orc)
 
 
